@@ -7,6 +7,7 @@ mod gen_dispatch;
 mod hand;
 mod hand_samplers;
 mod hand_mv;
+mod hand_vec;
 mod hand_ranktests;
 mod proto;
 mod rng;
